@@ -310,13 +310,16 @@ Fixpoint transfer_loop_with (retries : nat) (a : N) (op : operation) (items : li
   | O => verify (Some (ReportState a success)) r
   end.
 
-(* Sign::send_pages over an iterator that holds the conversation [fst item] before it yields the page [snd item] *)
-Definition send_pages_with (a : N) (items : list (list cop * page)) : prog flip_style :=
-  transfer_loop_with 2 a ReceivePixels (map (fun it => (prelude (fst it), p_bytes (snd it))) items)
-                     PixelsReceived PixelsFailed ;;;
+(* Sign::send_pages over an iterator that runs the program [fst item] on the bus before it yields the bytes [snd item] *)
+Definition send_pages_gen (a : N) (src : list (prog unit * list N)) : prog flip_style :=
+  transfer_loop_with 2 a ReceivePixels src PixelsReceived PixelsFailed ;;;
   expect (PixelsComplete a) None ;;;
   r <- send (QueryState a) ;;
   match r with
   | Some (ReportState a' ShowingPages) => if a' =? a then Ret Automatic else Ret Manual
   | _ => Ret Manual
   end.
+
+(* ... that makes the calls [fst item] (each under [catch]) before it yields the page [snd item] *)
+Definition send_pages_with (a : N) (items : list (list cop * page)) : prog flip_style :=
+  send_pages_gen a (map (fun it => (prelude (fst it), p_bytes (snd it))) items).
